@@ -398,6 +398,8 @@ def ns_value(v, depth=0):
         return canon(v)
     if isinstance(v, type):
         return 'class ' + v.__name__
+    if type(v).__name__ == 'Enum' and hasattr(v, 'members'):       # frappy.lib.enum.Enum (e.g. `cls.Status`): names and codes
+        return {'enum': sorted([m.name, int(m.value)] for m in v.members)}
     if depth > 4:
         return '...'
     if isinstance(v, dict):
@@ -410,11 +412,18 @@ def ns_value(v, depth=0):
     return _TYPE_TAG.get(type(v)) or _TYPE_TAG.setdefault(type(v), '<' + type(v).__name__ + '>')
 
 
-def ns_digest(namespace):
+def is_code(v):
+    import types
+    return isinstance(v, (types.FunctionType, types.BuiltinFunctionType, types.MethodDescriptorType, types.WrapperDescriptorType,
+                          types.GetSetDescriptorType, types.MemberDescriptorType, property, classmethod, staticmethod))
+
+
+def ns_digest(namespace, data_only=False):
     """what a class (its `__dict__`) or an instance (`vars()`) holds besides what is dumped in detail: every name with the
     canonical form of its value.  State cached on a class by somebody else (an attribute that appears, a class-level
     container that grows) is state shared by all its instances and inherited by its subclasses."""
-    return sorted([k, ns_value(v)] for k, v in namespace.items() if k not in ('__doc__', '__module__', '__qualname__', 'name'))
+    return sorted([k, ns_value(v)] for k, v in namespace.items() if k not in ('__doc__', '__module__', '__qualname__', 'name')
+                  and not (data_only and is_code(v)))
 
 
 def control_probe(modobj, calls):
@@ -536,6 +545,36 @@ def builtin_owners():
             'Feature': Feature, 'HasControlledBy': X.HasControlledBy, 'HasOutputModule': X.HasOutputModule}
 
 
+_lib = {}
+
+
+def lib_owners():
+    """the classes of frappy every module class is built FROM - datatype classes, Parameter/Command and their special
+    subclasses, Property: their class-level state (the property tables `propertyDict`, anything kept on the class) is shared
+    by all parameters of all modules of the process.  Owners `lib:<name>`: judged (nothing a program does may change them),
+    not predicted by the model."""
+    if not _lib:
+        import frappy.datatypes as D
+        import frappy.params as P
+        import frappy.properties as R
+        import frappy.extparams as X
+        for mod in (R, D, P, X):
+            for n, c in vars(mod).items():
+                if isinstance(c, type) and c.__module__ == mod.__name__ and (issubclass(c, R.HasProperties) or c is R.Property):
+                    _lib.setdefault(n, c)
+    return _lib
+
+
+def dump_lib(cls):
+    pd = cls.__dict__.get('propertyDict') or {}
+    out = {'ns': ns_digest(cls.__dict__, data_only=True)}     # methods of frappy's own classes are not data
+    try:
+        out['pd'] = [[pn] + dump_property(po) for pn, po in pd.items()]
+    except Exception as e:
+        out['pd'] = type(e).__name__
+    return out
+
+
 def snapshot(ex):
     """dumps of every live owner: frappy's own classes, every generated class, every instance, every loaded module
     section of the configuration; and the id()-partition of their objects"""
@@ -556,6 +595,11 @@ def snapshot(ex):
         objs += [('inst:' + name, p, x) for p, x in o]
     for name, sec in ex.cfgs.items():
         dumps['cfg:' + name] = {'cfg': dump_section(sec)}
+    for name, c in lib_owners().items():
+        try:
+            dumps['lib:' + name] = dump_lib(c)
+        except Exception as e:
+            dumps['lib:' + name] = {'dump_error': type(e).__name__}
     return dumps, partition(objs)
 
 
@@ -705,6 +749,156 @@ class time_limit:
 
 
 CASE_LIMIT = int(os.environ.get('VERIF_CASE_TIMEOUT') or 60)
+JOBS = int(os.environ.get('VERIF_JOBS') or min(16, os.cpu_count() or 4))
+
+
+# ----------------------------------------------------------------------------------------
+# every run of a program happens in a process of its own
+# ----------------------------------------------------------------------------------------
+def preload():
+    """everything of frappy a program uses is imported before the first case: the process of a case is a fork of this one"""
+    import frappy.modules, frappy.mixins, frappy.secnode, frappy.config, frappy.extparams     # noqa  pylint: disable=all
+    import frappy.datatypes, frappy.params, frappy.properties, frappy.modulebase            # noqa  pylint: disable=all
+    from frappy.lib import generalConfig
+    generalConfig.testinit()
+    builtin_owners()
+    lib_owners()
+
+
+def _child(func, args, wfd):
+    import pickle
+    import traceback
+    try:
+        try:
+            with time_limit(CASE_LIMIT):
+                out = ('ok', func(*args))
+        except CaseTimeout as e:
+            out = ('timeout', str(e))
+        except BaseException:       # pylint: disable=broad-except
+            out = ('crash', traceback.format_exc())
+        with os.fdopen(wfd, 'wb') as f:
+            f.write(pickle.dumps(out, 4))
+    finally:
+        os._exit(0)
+
+
+def fresh_many(jobs):
+    """[(func, args)] -> [func(*args)], each evaluated in a process of its own, forked from THIS process - which has imported
+    frappy and never defines a class, creates a module or builds a Parameter for a class itself.  'No other class was defined,
+    no other module created before' is meant literally: whatever a program leaves behind anywhere in the interpreter (class-level
+    tables of frappy's own classes, memos, module-level registries) dies with its process and is never seen by another
+    program, by the same program run in another order, or by the harness when it builds the wire format.  The jobs of one
+    call run concurrently."""
+    return fresh_collect(fresh_start(jobs))
+
+
+def fresh_start(jobs):
+    """starts the processes of the jobs; they run while the caller does something else (waits for the Lean driver)"""
+    preload()
+    running = []
+    for func, args in jobs:
+        rfd, wfd = os.pipe()
+        pid = os.fork()
+        if pid == 0:
+            os.close(rfd)
+            for r, _ in running:
+                os.close(r)
+            _child(func, args, wfd)
+        os.close(wfd)
+        running.append((rfd, pid))
+    return running
+
+
+def fresh_collect(running):
+    import pickle
+    import select
+    import signal
+    import time
+    results = []
+    deadline = time.time() + CASE_LIMIT + 30
+    for rfd, pid in running:
+        chunks = []
+        while True:
+            ready, _, _ = select.select([rfd], [], [], max(0.0, deadline - time.time()))
+            if not ready:       # the child hangs where SIGALRM does not reach it
+                os.kill(pid, signal.SIGKILL)
+                chunks = None
+                break
+            data = os.read(rfd, 1 << 20)
+            if not data:
+                break
+            chunks.append(data)
+        os.close(rfd)
+        os.waitpid(pid, 0)
+        if chunks is None:
+            results.append(('timeout', f'case process killed after {CASE_LIMIT + 30} s'))
+            continue
+        try:
+            results.append(pickle.loads(b''.join(chunks)))
+        except Exception as e:
+            results.append(('crash', f'no result from the case process ({type(e).__name__})'))
+    out = []
+    for status, val in results:
+        if status != 'ok':
+            raise RuntimeError(f'{status}: {val}; harness problem, not a verdict')
+        out.append(val)
+    return out
+
+
+def pbatch(ctx, groups):
+    """[[request]] -> [[answer]]: one driver process per group, all at once (a request line is a complete case, the driver
+    keeps no state between lines: vlib.lean.Driver.batch does the same with one process)"""
+    import shutil
+    import subprocess
+    import tempfile
+    path = getattr(ctx.driver, 'path', None)
+    if path is None or len(groups) < 2:
+        return [ctx.driver.batch(g) for g in groups]
+    tmp = tempfile.mkdtemp(prefix='c09-drv-')
+    try:
+        procs = []
+        for i, g in enumerate(groups):
+            with open(os.path.join(tmp, f'in{i}'), 'w', encoding='utf-8', errors='surrogatepass') as f:
+                for r in g:
+                    f.write(json.dumps(r, ensure_ascii=False, separators=(',', ':')) + '\n')
+            fin, fout = open(os.path.join(tmp, f'in{i}'), 'rb'), open(os.path.join(tmp, f'out{i}'), 'wb')
+            procs.append((subprocess.Popen([path], stdin=fin, stdout=fout, stderr=subprocess.DEVNULL), fin, fout))
+        out = []
+        for i, (pr, fin, fout) in enumerate(procs):
+            rc = pr.wait(timeout=3000)
+            fin.close()
+            fout.close()
+            with open(os.path.join(tmp, f'out{i}'), 'rb') as f:
+                lines = f.read().split(b'\n')
+            if lines and lines[-1] == b'':
+                lines.pop()
+            if len(lines) != len(groups[i]):
+                raise RuntimeError(f'driver answered {len(lines)} lines for {len(groups[i])} requests; rc={rc}')
+            out.append([json.loads(x.decode('utf-8', 'replace')) for x in lines])
+        return out
+    finally:
+        shutil.rmtree(tmp, ignore_errors=True)
+
+
+def fresh(func, *args):
+    return fresh_many([(func, args)])[0]
+
+
+def with_texts(program, init, steps):
+    """the canonical text of every dump (what the monitors compare) is made where the dump is made"""
+    init['text'] = text_dumps(init['dumps'])
+    for st in steps:
+        st['text'] = text_dumps(st['after'])
+    return program, init, steps
+
+
+def job_generate(seed, big):
+    import random
+    return with_texts(*gen_program(random.Random(seed), big))
+
+
+def job_run(program):
+    return with_texts(program, *impl_run(program))[1:]
 
 
 class Exec:
@@ -1227,7 +1421,9 @@ def gen_program(rng, big):
                 op = {'op': 'mutate', 'inst': iname, 'par': par, 'kind': 'setprop', 'key': key, 'val': props[key]}
             ops.append(op)
             ex.apply(op)
-    return {'ops': ops}, ex.init, ex.steps
+    program = {'ops': ops}
+    add_echoes(rng, program, ex)
+    return program, ex.init, ex.steps
 
 
 # ----------------------------------------------------------------------------------------
@@ -1361,7 +1557,7 @@ def comparable(dumps):
     """the part of the implementation's dumps the model has to predict"""
     out = {}
     for owner, d in dumps.items():
-        if owner.startswith('cfg:'):
+        if owner.startswith('cfg:') or owner.startswith('lib:'):
             continue
         if 'acc' not in d:
             out[owner] = d
@@ -1464,10 +1660,10 @@ def at_creation(steps):
     out = {}
     for st in steps:
         if st['outcome'] == 'ok' and st['op']['op'] in ('class', 'inst', 'load') and st['target'] in st['after']:
-            out[st['target']] = jtext(st['after'][st['target']])
+            out[st['target']] = (st.get('text') or {}).get(st['target']) or jtext(st['after'][st['target']])
         sec = 'cfg:' + str(st['op'].get('name'))
         if st['op']['op'] == 'inst' and 'from' not in st['op'] and sec in st['after']:
-            out[sec] = jtext(st['after'][sec])       # the section loaded with this operation, after the module was created from it
+            out[sec] = (st.get('text') or {}).get(sec) or jtext(st['after'][sec])       # the section loaded with this operation, after the module was created from it
     return out
 
 
@@ -1501,8 +1697,8 @@ def requests_for(program, init, steps, second=None):
         {'p': 'C09', 'k': 'run', 'prelude': prelude_ops(),
          'secop_base': secop_base_classes(),
          'ops': [wire_step(st) for st in steps]},
-        {'p': 'C09', 'k': 'judge_run', 'init': text_dumps(init['dumps']),
-         'steps': [{'target': step_target(st), 'after': text_dumps(st['after'])} for st in steps]},
+        {'p': 'C09', 'k': 'judge_run', 'init': init.get('text') or text_dumps(init['dumps']),
+         'steps': [{'target': step_target(st), 'after': st.get('text') or text_dumps(st['after'])} for st in steps]},
         {'p': 'C09', 'k': 'judge_val', 'pairs': sorted(pairs)},
         {'p': 'C09', 'k': 'judge_write', 'pairs': sorted(wpairs)},
     ]
@@ -1516,8 +1712,8 @@ def requests_for(program, init, steps, second=None):
     if second is not None:
         reqs.append({'p': 'C09', 'k': 'judge_order', 'a': first, 'b': at_creation(second)})
         # the second run (classes in another order, the configuration loaded as a whole, then the modules) is a run, too
-        reqs.append({'p': 'C09', 'k': 'judge_run', 'init': text_dumps(init['dumps']),
-                     'steps': [{'target': step_target(st), 'after': text_dumps(st['after'])} for st in second]})
+        reqs.append({'p': 'C09', 'k': 'judge_run', 'init': init.get('text') or text_dumps(init['dumps']),
+                     'steps': [{'target': step_target(st), 'after': st.get('text') or text_dumps(st['after'])} for st in second]})
     return reqs, laters
 
 
@@ -1624,15 +1820,11 @@ def evaluate(ctx, program, init, steps, second, answers, laters):
 
 
 def run_case(ctx, program, rng, with_order=True):
-    """re-runs a recorded program (corpus, replay, shrinking)"""
-    try:
-        with time_limit(CASE_LIMIT):
-            init, steps = impl_run(program)
-            second = None
-            if with_order:
-                second = impl_run(program.get('second') or reorder(rng, program))[1]
-    except CaseTimeout as e:
-        raise RuntimeError(str(e)) from None
+    """re-runs a recorded program (corpus, replay, shrinking): each run in a process of its own"""
+    init, steps = fresh(job_run, program)
+    second = None
+    if with_order:
+        second = fresh(job_run, program.get('second') or reorder(rng, program))[1]
     reqs, laters = requests_for(program, init, steps, second)
     answers = ctx.driver.batch(reqs)
     return evaluate(ctx, program, init, steps, second, answers, laters)
@@ -1673,11 +1865,7 @@ def run(ctx):
         nonlocal shrunk
         if not batch_reqs:
             return
-        answers = ctx.driver.batch([r for reqs in batch_reqs for r in reqs])
-        pos = 0
-        for reqs, (program, init, steps, second, laters) in zip(batch_reqs, batch_meta):
-            ans = answers[pos:pos + len(reqs)]
-            pos += len(reqs)
+        for ans, (program, init, steps, second, laters) in zip(pbatch(ctx, batch_reqs), batch_meta):
             dis, viols = evaluate(ctx, program, init, steps, second, ans, laters)
             res.evaluations += 1
             res.traces += 1 + (second is not None)
@@ -1697,18 +1885,36 @@ def run(ctx):
         batch_reqs.clear()
         batch_meta.clear()
 
-    for k in range(len(cases) + n):
-        try:
-            with time_limit(CASE_LIMIT):
-                if k < len(cases):
-                    program = cases[k][1]
-                    init, steps = impl_run(program)
-                else:
-                    ex_rng = random.Random(rng.random())
-                    program, init, steps = gen_program(ex_rng, big)
-                second = impl_run(program.get('second') or reorder(random.Random(rng.random()), program))[1]
-        except CaseTimeout as e:
-            raise RuntimeError(f'{e} (case {k}); harness problem, not a verdict') from None
+    seeds = [(rng.random(), rng.random()) for _ in range(len(cases) + n)]
+    total = len(cases) + n
+    done = {}
+    ahead = {}
+
+    def start_firsts(k):
+        ks = list(range(k, min(k + JOBS, total)))
+        if ks:
+            ahead[k] = (ks, fresh_start([(job_run, (cases[i][1],)) if i < len(cases) else (job_generate, (seeds[i][0], big)) for i in ks]))
+
+    def results(k):
+        """the two runs of case k; the cases are run JOBS at a time, every run in a process of its own; the first runs of the next
+        JOBS cases are started right away (they run while the Lean driver judges the cases at hand)"""
+        if k not in done:
+            done.clear()
+            if k not in ahead:
+                start_firsts(k)
+            ks, handle = ahead.pop(k)
+            firsts = fresh_collect(handle)
+            firsts = [(cases[i][1],) + tuple(f) if i < len(cases) else f for i, f in zip(ks, firsts)]
+            handle = fresh_start([(job_run, (f[0].get('second') or reorder(random.Random(seeds[i][1]), f[0]),))
+                                  for i, f in zip(ks, firsts)])
+            start_firsts(ks[-1] + 1)
+            seconds = fresh_collect(handle)
+            for i, f, sec in zip(ks, firsts, seconds):
+                done[i] = f + (sec[1],)
+        return done[k]
+
+    for k in range(total):
+        program, init, steps, second = results(k)
         reqs, laters = requests_for(program, init, steps, second)
         batch_reqs.append(reqs)
         batch_meta.append((program, init, steps, second, laters))
@@ -1762,7 +1968,7 @@ def run(ctx):
             res.nontriv(program)
         if len(res.samples) < 3 and multi and ninst and nmut and len(ops) <= 7:
             res.samples.append({'program': program, 'outcomes': [st['outcome'] for st in steps]})
-        if len(batch_reqs) >= 50:
+        if len(batch_reqs) >= JOBS:
             flush()
     flush()
     return res
@@ -1772,9 +1978,8 @@ def replay(ctx, payload):
     import random
     program = payload['case']
     try:
-        with time_limit(CASE_LIMIT):
-            init, steps = impl_run(program)
-    except CaseTimeout as e:
+        init, steps = fresh(job_run, program)
+    except RuntimeError as e:
         print('harness problem:', e)
         return 2
     for i, st in enumerate(steps):
@@ -1790,7 +1995,7 @@ def replay(ctx, payload):
         if 'step' in d:
             run_ = steps
             if d.get('in') == 'second':
-                run_ = impl_run(v['case']['second'])[1]
+                run_ = fresh(job_run, v['case']['second'])[1]
                 for i, st in enumerate(run_):
                     print('  other order', i, json.dumps(st['op'])[:300], '->', st['outcome'])
             prev = init['dumps'] if d['step'] == 0 else run_[d['step'] - 1]['after']
